@@ -210,7 +210,7 @@ pub fn run(ctx: &Ctx, sh: &mut Shard) {
         ctx.mark_case(k);
         let mut r = Rng::derive(ctx.seed, ctx.shard, k);
         let (a, b, lat) = super::c01::gen_case(&mut r);
-        if a.n_segments() + b.n_segments() > 90 {
+        if a.n_segments() + b.n_segments() > 700 {
             continue;
         }
         // one case in nine: a closed line string with one side cut into 3-5 collinear segments, written from a vertex in the
